@@ -361,7 +361,7 @@ def rule_guards(P) -> RuleResult:
         def resolve(node, fname, fval, recv, ex, env):
             if str(fname).split('.')[-1] == '_compile_pivot_by':
                 return pv
-            return None
+            return ex.engine.default_resolve(node, fname, fval, recv, ex, env)      # helpers the two functions are split into
         return Engine(P, on_attr=on_attr, on_isinstance=on_isinstance, on_call=on_call, resolve=resolve).paths(fi, {'self': SELF, fi.params[1]: SEL})
     ok = J.run('pivot-name', 'PIVOT BY name resolves', fi, pivot_paths([Sym('COLREF_zzz'), 2], [0, 1, 2]), True, 'a PIVOT BY name that is not a target')
     ok &= J.run('pivot-name', 'PIVOT BY name resolves', fi, pivot_paths([Sym('COLREF_a'), 2], [0, 1, 2]), False, 'a PIVOT BY name of a target')
